@@ -27,6 +27,7 @@ EXPLANATION = (
 ASSUMPTIONS = [
     "only the logic that consumes the solver status is covered: real SIGALRM delivery, HiGHS' own time-limit handling and the Gurobi branch are not modelled or exercised",
     "statuses are injected after the real solve has run (the solver holds a genuine solution when the inconclusive status is reported)",
+    "the custom-timeout route (_run_with_timeout) is taken with a far-away alarm (1e6 s): the SIGALRM handler itself never runs, its effect (did_timeout = True) is injected",
     "elapsed-time exits (MinFlowDecompCycles, NumPathsOptimization) are triggered by replacing the solve_time_elapsed property from outside",
     "parameters of the loop models that are not solver statuses (lower bound without MinGenSet, |E|, greedy applicability per k, number of paths of the guessed-weights solution, objective values) are read from the implementation",
     "the subgraph-scanning lower bound of MinFlowDecomp is exercised on chains of diamonds with 22-43 nodes (one or two windows) whose minimum is known in closed form; parameters of the nested window searches are read from the nested objects the run created",
@@ -34,6 +35,17 @@ ASSUMPTIONS = [
 TRUSTED = ["model: coq/theories/Search.v; proofs SearchProofs1.v, SearchProofs2.v"]
 
 SO = {"threads": 1}
+# the two routes of SolverWrapper.optimize(): direct, and through _run_with_timeout (finite time_limit AND
+# use_also_custom_timeout: SIGALRM armed, far away so that it never fires by accident); SO is switched in place
+SO_ROUTES = {False: {"threads": 1}, True: {"threads": 1, "time_limit": 1000000, "use_also_custom_timeout": True}}
+
+
+def set_route(alarm):
+    SO.clear(); SO.update(SO_ROUTES[bool(alarm)])
+
+
+def alarm_route():
+    return bool(SO.get("use_also_custom_timeout"))
 INCONCLUSIVE = ["kTimeLimit", "kInterrupt", "kUnknown", "kSolutionLimit", "custom"]
 TOK = {"kOptimal": 0, "kInfeasible": 1, "kTimeLimit": 2}
 K_MGS = "mgs_skips_inconclusive"
@@ -626,6 +638,8 @@ def injection_plans(nat_log, spec, extend, timed):
 
 
 def run_spec(ctx, tap, spec, extend=2, timed=False, label=""):
+    spec.inp = dict(spec.inp, alarm_route=alarm_route())
+    ctx.dist("%s:%s" % (spec.cls, "alarm-route" if alarm_route() else "direct-route"))
     runs = []
     nat = observe(tap, spec, {})
     runs.append(nat)
@@ -711,6 +725,18 @@ def run_kmodel_case(ctx, tap, fp, name, objfill, edges, k, opts, ops, case_id):
     ext = bool(m.is_solved())
     outs = []; toks = []; nsolve = 0
     for op in ops:
+        if isinstance(op, str) and op.startswith("modify"):
+            # the model is changed through the public SolverWrapper API between two solves (not an op of the machine)
+            outs.append("-")
+            if not ext:
+                v = next(iter(m.edge_vars.values()))
+                if op == "modify_infeasible":
+                    m.solver.add_constraint(v >= 10 ** 6, name="c13_make_infeasible")
+                elif op == "modify_objective":
+                    m.solver.set_objective(m.solver.quicksum([1 * v]), sense="minimize")
+                else:
+                    m.solver.add_constraint(v >= 0, name="c13_redundant")
+            continue
         if isinstance(op, tuple):
             if op[1] is not None:
                 tap.inject = {len(tap.log): op[1]}
@@ -735,7 +761,7 @@ def run_kmodel_case(ctx, tap, fp, name, objfill, edges, k, opts, ops, case_id):
     req = "kmodel " + common.toks(ext, objfill, len(toks), toks)
     log = [dict(e) for e in tap.log]; mism = list(tap.mismatch)
     return {"req": req, "outs": outs, "inv": len(log), "ext": ext, "log": log, "ops": ops, "mismatch": mism,
-            "replay": {"kmodel": name, "edges": edges, "k": k, "options": opts,
+            "replay": {"kmodel": name, "edges": edges, "k": k, "options": opts, "alarm_route": alarm_route(),
                        "ops": [list(o) if isinstance(o, tuple) else o for o in ops], "impl_outputs": outs,
                        "statuses": [[e["native"], e["custom"]] for e in log]}}
 
@@ -745,6 +771,8 @@ def kmodel_property(rec):
     optimal solve; get_objective_value only when solved."""
     bad = []; solved = rec["ext"]; had_opt = rec["ext"]; li = 0
     for op, out in zip(rec["ops"], rec["outs"]):
+        if out == "-":
+            continue
         if isinstance(op, tuple):
             if rec["ext"]:
                 want = True
@@ -779,8 +807,11 @@ def run_kmodels(ctx, tap, fp, n_inputs):
             opts = {"optimize_with_greedy": False}
         k = rng.choice([1, 1, 2, 3])
         for h in range(3):
+            set_route((i + h) % 2 == 1)
             ops = ["get_solution", "get_objective_value", "is_solved"]
             for _ in range(rng.randint(1, 3)):
+                if len(ops) > 3 and rng.random() < 0.6:
+                    ops.append(rng.choice(["modify_redundant", "modify_redundant", "modify_objective", "modify_infeasible"]))
                 ops.append(("solve", rng.choice([None, None] + INCONCLUSIVE)))
                 tail = ["get_solution", "get_objective_value", "is_solved"]
                 rng.shuffle(tail)
@@ -788,7 +819,8 @@ def run_kmodels(ctx, tap, fp, n_inputs):
             if h == 0:      # getters must raise before the first solve, whatever it returns later
                 ops = ["get_solution", "get_objective_value", "is_solved", ("solve", rng.choice(INCONCLUSIVE)),
                        "is_solved", "get_objective_value", "get_solution", ("solve", None), "get_solution", "is_solved",
-                       ("solve", rng.choice(INCONCLUSIVE)), "is_solved", "get_objective_value", "get_solution"]
+                       "modify_redundant", ("solve", rng.choice(INCONCLUSIVE)), "is_solved", "get_objective_value", "get_solution",
+                       "modify_infeasible", ("solve", None), "is_solved", "get_objective_value"]
             try:
                 rec = run_kmodel_case(ctx, tap, fp, name, objfill, edges, k, opts, ops, (i, h))
             except Exception as e:
@@ -800,18 +832,92 @@ def run_kmodels(ctx, tap, fp, n_inputs):
     for rec, out in zip(recs, outs):
         p = out.split()
         mod_outs = p[2:] if p and p[0] == "OK" else None; mod_inv = int(p[1]) if mod_outs is not None else None
-        agree = (mod_outs == rec["outs"] and mod_inv == rec["inv"] and not rec["mismatch"])
+        agree = (mod_outs == [o for o in rec["outs"] if o != "-"] and mod_inv == rec["inv"] and not rec["mismatch"])
         inj = any(isinstance(o, tuple) and o[1] for o in rec["ops"])
-        ctx.case([rec["name"], rec["replay"]["edges"], rec["replay"]["k"], rec["replay"]["options"], rec["replay"]["ops"]],
+        ctx.case([rec["name"], rec["replay"]["edges"], rec["replay"]["k"], rec["replay"]["options"], rec["replay"]["ops"], rec["replay"]["alarm_route"]],
                  nontrivial=inj, sample=dict(rec["replay"], model=out))
         ctx.count("E4_kmodel", "histories"); ctx.count("E4_kmodel", "agreements" if agree else "disagreements")
-        ctx.dist("kmodel:" + rec["name"] + (":external" if rec["ext"] else ""))
+        ctx.dist("kmodel:" + rec["name"] + (":external" if rec["ext"] else "") + (":alarm-route" if rec["replay"]["alarm_route"] else ""))
+        if rec["mismatch"]:
+            ctx.report("%s: get_model_status() reported %s after a run whose outcome was %s" % ((rec["name"],) + tuple(rec["mismatch"][0][1:])),
+                       dict(rec["replay"], model=out), concrete=True)
         bad = kmodel_property(rec)
         for b in bad:
             ctx.report("%s: %s" % (rec["name"], b), dict(rec["replay"], model=out), concrete=True)
         if not agree and not bad:
             ctx.report("E4 correspondence broken: %s solved-flag history differs from Search.kruns: impl %s / %d invocations, model %s" % (
                 rec["name"], rec["outs"], rec["inv"], out), dict(rec["replay"], model=out), concrete=False)
+
+
+# ------------------------------------------------------------------------------------------ SolverWrapper directly
+def run_wrapper_history(tap, steps):
+    """One SolverWrapper object: optimize, change the model (row / bound / objective), optimize again ...
+    steps: ("opt", inject|None) | "row_redundant" | "row_tight" | "row_infeasible" | "objective" | "queue_lb" | "queue_fix"."""
+    tap.reset({})
+    sw = tap.SW(**dict(SO))
+    x = sw.add_variables([0, 1, 2], name_prefix="x", lb=0, ub=5, var_type="integer")
+    sw.add_constraint(x[0] + x[1] + x[2] >= 2, name="base")
+    sw.set_objective(x[0] + 2 * x[1] + 3 * x[2], sense="minimize")
+    reported_seq = []; unstable = []
+    for st in steps:
+        if isinstance(st, tuple):
+            if st[1] is not None:
+                tap.inject = {len(tap.log): st[1]}
+            sw.optimize(); tap.inject = {}
+            rs = [sw.get_model_status() for _ in range(3)]
+            reported_seq.append(rs[0])
+            if len(set(rs)) != 1:
+                unstable.append(rs)
+        elif st == "row_redundant":
+            sw.add_constraint(x[0] >= 0, name="r")
+        elif st == "row_tight":
+            sw.add_constraint(x[1] + x[2] >= 1, name="t")
+        elif st == "row_infeasible":
+            sw.add_constraint(x[0] + x[1] + x[2] >= 100, name="i")
+        elif st == "objective":
+            sw.set_objective(3 * x[0] + x[1] + x[2], sense="minimize")
+        elif st == "queue_lb":
+            sw.queue_set_var_lower_bound(x[2], 1)
+        elif st == "queue_fix":
+            sw.queue_fix_variable(x[0], 0)
+    return {"log": [dict(e) for e in tap.log], "reported": reported_seq, "unstable": unstable, "mismatch": list(tap.mismatch)}
+
+
+def run_wrappers(ctx, tap, n):
+    recs = []
+    for i in range(n):
+        rng = ctx.rng("wrapper", i)
+        set_route(i % 2 == 1)
+        steps = [("opt", rng.choice([None] + INCONCLUSIVE))]
+        for _ in range(rng.randint(1, 4)):
+            steps.append(rng.choice(["row_redundant", "row_tight", "row_infeasible", "objective", "queue_lb", "queue_fix"]))
+            steps.append(("opt", rng.choice([None, None] + INCONCLUSIVE)))
+        if i < 2:        # optimal, then a change that makes the model infeasible / a time limit on the changed model
+            steps = [("opt", None), "row_infeasible" if i == 0 else "row_tight", ("opt", None if i == 0 else "kTimeLimit"), "objective", ("opt", None)]
+        if not alarm_route():      # on the direct route no alarm is armed: the flag cannot be set there
+            steps = [(st[0], "kTimeLimit" if st[1] == "custom" else st[1]) if isinstance(st, tuple) else st for st in steps]
+        rec = run_wrapper_history(tap, steps)
+        rec["steps"] = steps; rec["alarm"] = alarm_route()
+        rec["req"] = "wrapper " + common.toks(rec["alarm"], len(rec["log"]), [[TOK.get(e["native"], 3), 1 if e["custom"] else 0] for e in rec["log"]])
+        recs.append(rec)
+    outs = ctx.model.run([r["req"] for r in recs])
+    for rec, out in zip(recs, outs):
+        want = [reported(e) for e in rec["log"]]                       # status of the LAST run, at each point of the history
+        mod = out.split()[1:] if out.startswith("OK") else None
+        impl_tok = [str(TOK.get(r, 3)) for r in rec["reported"]]
+        replay = {"wrapper_steps": [list(s) if isinstance(s, tuple) else s for s in rec["steps"]], "alarm_route": rec["alarm"],
+                  "runs": [[e["native"], e["custom"]] for e in rec["log"]], "reported": rec["reported"], "model": out}
+        ctx.case(["wrapper", replay["wrapper_steps"], rec["alarm"]], nontrivial=len(rec["log"]) >= 2, sample=replay)
+        ctx.count("E4_SolverWrapper", "histories"); ctx.dist("wrapper:" + ("alarm-route" if rec["alarm"] else "direct-route"))
+        if rec["reported"] != want or rec["unstable"]:
+            ctx.count("E4_SolverWrapper", "disagreements")
+            ctx.report("SolverWrapper: get_model_status() after the runs of one history reported %s, the runs ended %s (%s route)" % (
+                rec["reported"], want, "custom-timeout" if rec["alarm"] else "direct"), replay, concrete=True)
+        elif mod != impl_tok:
+            ctx.count("E4_SolverWrapper", "disagreements")
+            ctx.report("E4 correspondence broken: SolverWrapper status history %s differs from Search.sw_runs %s" % (impl_tok, mod), replay, concrete=False)
+        else:
+            ctx.count("E4_SolverWrapper", "agreements")
 
 
 # ------------------------------------------------------------------------------------------ run
@@ -831,7 +937,10 @@ def run(ctx):
     import flowpaths as fp
     ctx.rule = ("case = one run of solve() of (class, input, options) with a status injected at one invocation position "
                 "(every position of the natural invocation sequence x {kTimeLimit, kInterrupt, kUnknown, kSolutionLimit, custom time-out}, "
-                "plus positions deeper in the k-range reached by forcing kInfeasible, plus elapsed-time exits), or one op history of a k-model; "
+                "plus positions deeper in the k-range reached by forcing kInfeasible, plus elapsed-time exits, plus a second solve() on the same object), "
+                "or one op history of a k-model (solve / getters / model changes through the wrapper API between re-solves), or one history of a bare "
+                "SolverWrapper (optimize, add row / bound / change objective, optimize again); every class on both routes of optimize() "
+                "(direct, and finite time_limit + use_also_custom_timeout); "
                 "inputs: flow DAGs <= 6 nodes, cyclic flow graphs <= 6 nodes, number lists <= 5 numbers; "
                 "non-trivial = the injected status was actually consumed; distinct by (class, input, options, injection)")
     for key in SWITCH:
@@ -841,13 +950,16 @@ def run(ctx):
     try:
         n = ctx.budget(16, 200)
         run_kmodels(ctx, tap, fp, ctx.budget(48, 800))
+        run_wrappers(ctx, tap, ctx.budget(40, 600))
         for i in range(n):
             rng = ctx.rng("mgs", i)
+            set_route(i % 2 == 1)
             run_spec(ctx, tap, spec_mgs(fp, mgs_input(rng)), extend=0)
         for i in range(n):
             rng = ctx.rng("mfd", i)
             edges = flow_dag(rng)
-            for opts in ([MFD_OPTS[0]] + rng.sample(MFD_OPTS[1:], 3)):
+            for j, opts in enumerate([MFD_OPTS[0]] + rng.sample(MFD_OPTS[1:], 3)):
+                set_route((i + j) % 2 == 1)
                 run_spec(ctx, tap, spec_mfd(fp, edges, opts), extend=2)
         # MinFlowDecomp with the subgraph-scanning lower bound (nested searches over windows of 20 nodes)
         for i in range(max(2, n // 5)):
@@ -856,22 +968,27 @@ def run(ctx):
             base = {"use_subgraph_scanning_lowerbound": True, "optimize_with_greedy": False}
             variants = [base, dict(base, use_min_gen_set_lowerbound=True), dict(base, optimize_with_guessed_weights=True),
                         {"use_subgraph_scanning_lowerbound": True}]
-            for opts in ([base] + rng.sample(variants[1:], 1)):
+            for j, opts in enumerate([base] + rng.sample(variants[1:], 1)):
+                set_route((i + j) % 2 == 1)
                 sp = spec_mfd(fp, edges, opts); sp.known_min = kmin; sp.exhaust = False
                 sp.inp = {"edges": edges, "known_min": kmin}
                 run_spec(ctx, tap, sp, extend=0)
         for i in range(max(1, n // 2)):
             rng = ctx.rng("mfdc", i)
             edges = flow_cyclic(rng)
-            for opts in rng.sample(MFDC_OPTS, 2):
+            for j, opts in enumerate(rng.sample(MFDC_OPTS, 2)):
+                set_route((i + j) % 2 == 1)
                 run_spec(ctx, tap, spec_mfdc(fp, edges, opts, timed=True), extend=1, timed=True)
         for i in range(n):
             rng = ctx.rng("mpc", i)
+            set_route(i % 2 == 1)
             run_spec(ctx, tap, spec_mpc(fp, [[u, v, 1] for u, v in gen.rand_dag(rng, 6).edges()], False), extend=2)
             rng = ctx.rng("mpcc", i)
+            set_route(i % 2 == 0)
             run_spec(ctx, tap, spec_mpc(fp, [[u, v, 1] for u, v, _ in flow_cyclic(rng)], True), extend=2)
         for i in range(n):
             rng = ctx.rng("npo", i)
+            set_route(i % 2 == 1)
             edges = flow_dag(rng)
             mtype = rng.choice(sorted(NPO_TYPES))
             perturb = [rng.choice([0, 0, 0, 1, 2, -1]) if f > 1 else 0 for _, _, f in edges] if mtype.startswith(("kMin", "kLeast")) else None
@@ -882,6 +999,7 @@ def run(ctx):
                 continue
             run_spec(ctx, tap, sp, extend=0, timed=True)
     finally:
+        set_route(False)
         tap.close()
 
 
@@ -891,13 +1009,22 @@ def replay(ctx, body):
         SWITCH[key] = 1 if ctx.open_finding(key) else 0
     tap = Tap()
     try:
+        if "wrapper_steps" in body:
+            set_route(body.get("alarm_route", False))
+            steps = [tuple(x) if isinstance(x, list) else x for x in body["wrapper_steps"]]
+            rec = run_wrapper_history(tap, steps)
+            want = [reported(e) for e in rec["log"]]
+            print("reported now:", rec["reported"], "runs ended:", want)
+            return rec["reported"] != want or bool(rec["unstable"])
         if "kmodel" in body:
+            set_route(body.get("alarm_route", False))
             name = body["kmodel"]; objfill = dict((k[0], k[3]) for k in KMODELS)[name]
             ops = [tuple(o) if isinstance(o, list) else o for o in body["ops"]]
             rec = run_kmodel_case(ctx, tap, fp, name, objfill, body["edges"], body["k"], body["options"], ops, 0)
             bad = kmodel_property(rec)
-            print("impl outputs now:", rec["outs"], "property failures:", bad)
-            return bool(bad) or rec["outs"] != body.get("impl_outputs")
+            print("impl outputs now:", rec["outs"], "property failures:", bad, "status mismatches:", rec["mismatch"])
+            return bool(bad) or bool(rec["mismatch"]) or rec["outs"] != body.get("impl_outputs")
+        set_route(body["input"].get("alarm_route", False))
         spec = rebuild_spec(fp, body["class"], body["input"], body["options"])
         nat = observe(tap, spec, {})
         if body.get("second_call"):
